@@ -599,6 +599,20 @@ def semantics_origin_cross():
     return out
 
 
+def semantics_origin_menu_cross():
+    """Which events exist per direction x semantics per side x origin (the generator emits different wiring for each)."""
+    out = []
+    for menu in ('inonly', 'outonly', 'empty'):
+        for psem in DIMS['psem']:
+            for rsem in ('allmts', 'allsts'):
+                for fac in DIMS['fac']:
+                    pt = dict(BASE_POINT)
+                    pt.update({'menu': menu, 'psem': psem, 'rsem': rsem, 'fac': fac})
+                    if valid_point(pt):
+                        out.append(pt)
+    return out
+
+
 def lab_points(k):
     """Point set shared by all lab properties: deviations from the base point and from the
     multi-client base point, plus the semantics x origin cross product."""
@@ -620,7 +634,7 @@ def lab_points(k):
             pt.update(delta)
             if valid_point(pt):
                 corners.append(pt)
-    for pt in semantics_origin_cross() + corners:
+    for pt in semantics_origin_cross() + semantics_origin_menu_cross() + corners:
         key = point_id(pt)
         if key not in seen:
             seen.add(key)
